@@ -50,6 +50,7 @@ struct Want {
 };
 struct Res {
   std::string oc, val;
+  const std::string* ref = nullptr;  // string getters return a reference: it must keep denoting the same text
 };
 
 template <class T>
@@ -139,8 +140,8 @@ Res apply(vf::Run& r, Arguments& a, const Op& op) {
   r.counters["getter_calls"]++;
   res.oc = vf::outcome([&] {
     switch (op.kind) {
-      case K_STR: res.val = a.get<std::string>(nm); break;
-      case K_STR_T: res.val = a.get<std::string>(nm, true); break;
+      case K_STR: res.ref = &a.get<std::string>(nm); res.val = *res.ref; break;
+      case K_STR_T: res.ref = &a.get<std::string>(nm, true); res.val = *res.ref; break;
       case K_BOOL: res.val = a.get<bool>(nm.c_str()) ? "true" : "false"; break;
       case K_I32: res.val = s128(a.get<int32_t>(nm)); break;
       case K_I32_DEF: res.val = s128(a.get<int32_t>(nm.c_str(), 99)); break;
@@ -157,8 +158,8 @@ Res apply(vf::Run& r, Arguments& a, const Op& op) {
       case K_LDBL_DEF: res.val = fval(a.get<long double>(nm, std::optional<long double>(0.5L))); break;
       case K_MU64_HEX: { std::vector<std::string> v; for (uint64_t x : a.get_multi<uint64_t>(nm, IntFormat::HEX)) v.push_back(s128((i128)x)); res.val = join_strs(v); break; }
       case K_MDBL: { std::vector<std::string> v; for (double x : a.get_multi<double>(nm)) v.push_back(fval(x)); res.val = join_strs(v); break; }
-      case P_STR: res.val = a.get<std::string>(p); break;
-      case P_STR_NT: res.val = a.get<std::string>(p, false); break;
+      case P_STR: res.ref = &a.get<std::string>(p); res.val = *res.ref; break;
+      case P_STR_NT: res.ref = &a.get<std::string>(p, false); res.val = *res.ref; break;
       case P_I64: res.val = s128(a.get<int64_t>(p)); break;
       case P_U16_DEF: res.val = s128(a.get<uint16_t>(p, (uint16_t)42)); break;
       case P_DBL: res.val = fval(a.get<double>(p)); break;
@@ -170,7 +171,7 @@ Res apply(vf::Run& r, Arguments& a, const Op& op) {
       case K_ASSERT: a.assert_none_unused(); break;
     }
   });
-  if (res.oc != "ok") res.val.clear();
+  if (res.oc != "ok") { res.val.clear(); res.ref = nullptr; }
   return res;
 }
 
@@ -323,18 +324,24 @@ void history_case(vf::Run& r, const State& st, const std::vector<const Op*>& his
   r.nontriv();
   bool bad = false, dc = false;
   auto ctx = [&] { return std::string(CTOR_NAME[st.ctor]) + " on " + list_str(st.tokens) + ", history " + hist_str() + ": "; };
+  std::vector<Res> results;
   for (size_t i = 0; i < hist.size(); i++) {
     const Op& op = *hist[i];
     static const int ERRNOS[4] = {0, ERANGE, EINVAL, EINTR};
     if (i) errno = ERRNOS[(r.cur + i) & 3];  // (the first call runs with take()'s value)
     Want w = model_apply(m, op);
     Res g = apply(r, a, op);
+    results.push_back(g);
     if (w.dontcare) { dc = true; continue; }
     bool same = (g.oc == w.oc && g.val == w.val) || (w.also_out_of_range && g.oc == "out_of_range");
     if (!same) {
       bad = true;
       r.fail(std::string("history:") + kind_family(op.kind), [&] { return ctx() + vf::fmt("call #%zu ", i + 1) + op.str() + " -> " + g.oc + (g.oc == "ok" ? " " + vf::show(g.val) : "") + ", the same call on a fresh object gives / the statement demands " + w.oc + (w.oc == "ok" ? " " + vf::show(w.val) : ""); });
     }
+  }
+  // a text returned by reference is still the same text after the later calls
+  for (size_t i = 0; i < results.size(); i++) {
+    if (results[i].ref && *results[i].ref != results[i].val) { bad = true; r.fail("history:returned-reference-changed", [&] { return ctx() + vf::fmt("call #%zu ", i + 1) + hist[i]->str() + " returned a reference to " + vf::show(results[i].val) + "; after the later calls it reads " + vf::show(*results[i].ref); }); }
   }
   // the object still holds exactly what was supplied, and the read marks are those of the SET of reads
   RefArgs now = snapshot(a);
@@ -377,7 +384,6 @@ VF_SECTION(gethist, 16, 16, 120) {
       history_case(r, S[si == 0 ? 1 : si == 1 ? 0 : si], {&ops[i], &ops[j], &ops[k]});
     }
   }
-  r.counters["operations_in_alphabet"] = M;
   r.bound = vf::fmt("alphabet of %zu calls (%s getter kinds by name x names {n,e,r,b,q%s}, %s kinds by position x positions {0,1,2%s}, assert_none_unused); every ordered sequence of 0..2 calls on 5 objects (rich, small, empty, alt built from one quoted command line, single) and every ordered sequence of 3 calls on %s; every call compared, then read marks, stored arguments and a final assert_none_unused()",
       M, r.thorough() ? "18" : "11", r.thorough() ? ",\"\",v" : "", r.thorough() ? "10" : "7", r.thorough() ? ",SIZE_MAX" : "", r.thorough() ? "all 5 objects" : "the objects small and rich");
 }
@@ -510,7 +516,6 @@ VF_SECTION(parsehist, 16, 16, 120) {
       if (c1 && c2 && c3) r.ok(c1 == c3 ? "A, B, A: all three as the reference" : "A, B, A: all three as the reference (don't-care member)");
     }
   }
-  r.counters["operations_in_alphabet"] = M;
   r.bound = vf::fmt("every ordered pair (A, B) of %zu reads = %zu texts x (8 integer targets x 4 formats + float, double, long double), executed as A, B, A on one object (options t0..), errno not reset in between", M, texts.size());
 }
 
